@@ -482,7 +482,16 @@ class _InternalBaseTracer(_InternalBaseTracerSuper, metaclass=MetaTracerStateMac
         self._is_tracing_enabled = False
         if has_sys_trace_events and sys_gettrace() is not None:
             sys_settrace(self.existing_tracer)
-        setattr(builtins, FUNCTION_TRACING_ENABLED, False)
+        # function bodies compiled under tracing consult this process-wide switch:
+        # keep it on while any other stacked tracer is still enabled
+        setattr(
+            builtins,
+            FUNCTION_TRACING_ENABLED,
+            any(
+                tracer is not self and tracer._is_tracing_enabled
+                for tracer in _TRACER_STACK
+            ),
+        )
         if len(_TRACER_STACK) == 0:
             setattr(builtins, TRACING_ENABLED, False)
 
